@@ -29,6 +29,9 @@ CONSTANTS
     MaxChan,        \* budget: messages in flight
     Immediate,      \* TRUE: operations only when every host has consumed everything
     NsAll,          \* every namespace name of the alphabet (for the callback tags)
+    CbCancel,       \* TRUE: an application callback that "raises" raises asyncio.CancelledError
+                    \* (it awaited something that was cancelled): trigger_callback swallows it
+                    \* (async_manager.py 117-121) - nothing is raised, the listener goes on
     Transports, NsH, NsListed, NsStar, HKind, AlwaysConnect, AsyncHandlers,
     MaxSid, MaxAck, Alphabet, Dev
 
@@ -97,7 +100,7 @@ RunCallbacks(m, h, cbRaise) ==     \* m.cbs holds what trigger_callback invoked
     IF m.cbs = <<>> THEN [m |-> m, pub |-> <<>>]
     ELSE LET c == m.cbs[1]
          IN  IF ~IsPartial(c.tag)
-             THEN [m |-> IF cbRaise THEN S!Raise(m, "Boom") ELSE m, pub |-> <<>>]
+             THEN [m |-> IF cbRaise /\ ~CbCancel THEN S!Raise(m, "Boom") ELSE m, pub |-> <<>>]
              ELSE LET p == PartialOf(c.tag)
                   IN  IF p.host = h
                       THEN \* trigger_callback(room, id, args) on this very host
@@ -106,7 +109,7 @@ RunCallbacks(m, h, cbRaise) ==     \* m.cbs holds what trigger_callback invoked
                            IN  IF Has(m.s.cb, p.room) /\ Has(e.out, k)
                                THEN LET m1 == [m EXCEPT !.s.cb = Put(@, p.room, [e EXCEPT !.out = Del(@, k)]),
                                                         !.cbs = <<[tag |-> e.out[k], args |-> c.args]>>]
-                                    IN  [m |-> IF cbRaise THEN S!Raise(m1, "Boom") ELSE m1, pub |-> <<>>]
+                                    IN  [m |-> IF cbRaise /\ ~CbCancel THEN S!Raise(m1, "Boom") ELSE m1, pub |-> <<>>]
                                ELSE [m |-> [m EXCEPT !.cbs = <<>>], pub |-> <<>>]
                       ELSE [m |-> [m EXCEPT !.cbs = <<>>],
                             pub |-> <<CbMsg(p.host, p.room, p.ns, p.id, c.args)>>]
